@@ -30,8 +30,10 @@ with the usual crossing test (`EOQ.crosses`, `EOQ.inside`):
   irrelevant.
 
 Not proved: anything about the clipper over all inputs; the driver's text parsing and its choice of the common exponent
-(`minExp`, a fold of `min` over all exponents of the call) are trusted glue; points lying exactly on lattice lines (not on an edge) are
-not covered by `validateLattice_sound`; for general-position inputs only sample points are judged. -/
+(`minExp`, a fold of `min` over all exponents of the call) are trusted glue; points lying exactly on lattice lines
+(not on an edge) are not covered by `validateLattice_sound`; for general-position inputs only sample points are judged.
+Known findings of the real code on DEGENERATE non-rectilinear lattice inputs (panics, wrong regions — outside the
+property's general-position quantifier) are the fixed corpus `corpus/C05/degenerate.known.ops`. -/
 namespace C05
 open EOQ
 
